@@ -58,6 +58,41 @@ CHECKS = {
              "name a violated rule.",
         note="small label alphabets, integer weights; two acceptances outside the class (R3s, R8) are listed known "
              "findings; two others (R5 single/multi clash, R7 forgotten action) were repaired by fix: commits"),
+    "C08": dict(
+        category="model_checking", design_ref="4 C08",
+        technique="Cfr.tla (documented discounted CFR over exact rationals, symbolic atoms for irrational discounts) "
+                  "evaluated by TLC; one-step conformance from injected states at arbitrary iteration index through the "
+                  "production loops (1 and 2 threads) plus exact trajectories T<=3 through the public API",
+        text="inductive: the initial state, one iteration from an arbitrary state (all regret-matching branches, all "
+             "discount special cases, every method, pinned draws) and the final normalisation are each compared with the "
+             "specification, so every trajectory is covered by induction rather than by long exact runs (impossible: "
+             "exact iterates double in size per iteration).",
+        note="irrational atoms t^e/(t^e+1), (t/(t+1))^g, exp evaluated by libm in the harness; ties and fragile "
+             "(exactly-zero) decisions are compared against the admissible set, not a single value"),
+    "C02": dict(
+        category="model_checking", design_ref="4 C02",
+        technique="TLC checks BoundDominates on exact Cfr.tla trajectories (T<=3) replayed into solve(); long real runs "
+                  "(budgets to 2500/10000, thresholds around every bound, 1..16 threads) recorded and validated against "
+                  "Trace_Solve.tla (bound >= regret, early stop => regret < threshold)",
+        text="exact for T<=3 on seeded small games (the model's bound and brute-force regret), monitored beyond that with "
+             "the evaluation validated by C01 as instrument.",
+        note="the CFR theorem itself is not proved; micro-unit comparisons are sound in the direction used"),
+    "C03": dict(
+        category="exploration", design_ref="4 C03",
+        technique="Trace_Solve.tla recomputes D, N, A from the raw tree and checks the rate envelopes on recorded real "
+                  "runs of all presets; RateHolds checked exactly by TLC on Cfr.tla trajectories T<=3",
+        text="finite envelopes at budgets 1..2500 (10000 thorough) on adversarial families and seeded games stand in for "
+             "the asymptotic claim; exploration with an exact small-model part.",
+        note="the envelopes are loose (measured worst ratio 0.006): this kills changes that stop convergence, wrong "
+             "iterates are C08's"),
+    "C04": dict(
+        category="exploration", design_ref="4 C04",
+        technique="TLC proves the Unbiased lemma exactly on seeded cases (expectation over all draws of the sampled "
+                  "increments = unsampled increments, MC_Unbiased.tla); recorded real runs under seeded replayable draws "
+                  "validated against Trace_Solve.tla (per-run envelope, corpus statistics)",
+        text="statistical property: fixed seeds and corpus, thresholds with measured margin; the model-checked part is "
+             "the unbiasedness lemma behind MCCFR convergence.",
+        note="games with a chance infoset repeated on a path are outside the lemma (known finding)"),
 }
 
 NOT_YET = "check not built yet (construction in progress, see DESIGN.md section 9)"
